@@ -214,24 +214,29 @@ def _forward(body, local, seen):
 
 
 def source_order_rule(crate, prop, rule="C13.R3"):
-    r = Result(rule, "fields, tuple elements and variants are accumulated in Vecs filled while iterating the syn Punctuated list in source order")
-    want = [("types::named::named", "formatted_fields", r"punctuated::Iter<'_, syn::Field>"),
-            ("types::tuple::tuple", "formatted_fields", r"punctuated::Iter<'_, syn::Field>"),
-            ("types::r#enum::enum_def", "formatted_variants", r"punctuated::Iter<'_, syn::Variant>")]
-    for fn, local, it in want:
-        b = crate.body(fn)
-        if b is None:
+    r = Result(rule, "fields, tuple elements and variants are emitted in source order: named(), tuple() and enum_def() (helpers and closures included) walk the syn Punctuated list front to back (a `for`, or an in-order adaptor such as try_for_each / map / fold - never rev(), never a sort), and every collection of generated token streams they hold is a Vec (no hash or tree collection, which would re-order members)")
+    want = [("types::named::named", r"punctuated::Iter<'_, syn::Field>"),
+            ("types::tuple::tuple", r"punctuated::Iter<'_, syn::Field>"),
+            ("types::r#enum::enum_def", r"punctuated::Iter<'_, syn::Variant>")]
+    INORDER = [r"Iterator>::next$", r"Iterator::next$", r"Iterator::(try_for_each|for_each|map|filter_map|try_fold|fold|enumerate|filter|zip|peekable|by_ref|collect|flat_map|map_while|inspect|cloned|copied)$",
+               r"IntoIterator>::into_iter$"]
+    REORDER = [r"Iterator::rev$", r"slice::<impl \[T\]>::(sort\w*|reverse)$", r"DoubleEndedIterator::(next_back|rfold|rev)"]
+    for fn, it in want:
+        b0 = crate.body(fn)
+        if b0 is None:
             r.fail(prop, "anchor-missing " + fn, "function not found")
             continue
-        acc = [l for l in b.locals if l["name"] == local]
-        ok_acc = any(l["ty"].startswith("std::vec::Vec<") for l in acc) and not any(re.search(r"collections::(Hash|BTree)(Map|Set)<", l["ty"]) for l in acc)
-        nexts = [(blk, t) for blk, t in b.calls() if fn_matches(t, r"Iterator>::next$") and not b.is_cleanup(blk)]
-        ok_it = any(re.search(it, (t.get("arg_tys") or [""])[0]) for _, t in nexts)
-        r.inst(fn=fn, accumulator=local, accumulator_ty=(acc[0]["ty"][:60] if acc else None), iterates=it, ok=ok_acc and ok_it)
-        if not ok_acc:
-            r.fail(prop, "accumulator-not-vec %s %s" % (fn, local), "%s in %s is not a Vec (source order would be lost)" % (local, fn), b.file(), b.line())
+        group = crate.owned_by(fn)
+        bodies = [crate.inlined(b0)] + [x for x in crate.bodies if x.path in group and x.kind == "Closure"]
+        bad_coll = sorted({l["ty"][:70] for b in bodies for l in b.locals if re.search(r"collections::(Hash|BTree)(Map|Set)<[^>]*TokenStream", l["ty"])})
+        vecs = any(re.search(r"vec::Vec<proc_macro2::TokenStream>", l["ty"]) for b in bodies for l in b.locals)
+        walks = [(b, blk, t) for b in bodies for blk, t in b.calls() if not b.is_cleanup(blk) and re.search(it, (t.get("arg_tys") or [""])[0])]
+        ok_it = any(fn_matches(t, *INORDER) for _, _, t in walks) and not any(fn_matches(t, *REORDER) for _, _, t in walks)
+        r.inst(fn=fn, token_stream_collections="Vec" if vecs and not bad_coll else bad_coll or None, walks=sorted({(M.callee(t) or "?").split("::")[-1] for _, _, t in walks}), iterates=it, ok=vecs and not bad_coll and ok_it)
+        if bad_coll or not vecs:
+            r.fail(prop, "accumulator-not-vec %s" % fn, "%s keeps generated members in %s (source order would be lost)" % (fn, bad_coll or "no Vec<TokenStream>"), b0.file(), b0.line())
         if not ok_it:
-            r.fail(prop, "not-source-order %s" % fn, "%s does not iterate %s directly" % (fn, it), b.file(), b.line())
+            r.fail(prop, "not-source-order %s" % fn, "%s does not walk %s front to back" % (fn, it), b0.file(), b0.line())
     r.floor = 3
     return r
 
